@@ -597,6 +597,12 @@ class ModelingUpdate:
 mut("cumul: negative storage check against exact zero (revert of fix F27)", ["R-CUMUL"],
     [("core/hardware/storage.py", "            if cumulative_need.min() < -1e-9 * cumulative_need.abs().max():",
       "            if cumulative_need.min().magnitude < 0:")], ["negativity check against exact zero"])
+mut("hournoise: shift floored straight from the converted delay (revert of fix F29)", ["R-HOURNOISE"],
+    [(EO, "        shift_duration_in_hours = math.floor(round(shift_duration.to(u.hour).magnitude, 9))",
+      "        shift_duration_in_hours = math.floor(shift_duration.to(u.hour).magnitude)")], ["return_shifted_hourly_quantities"])
+mut("hournoise: full hours of a request by ceil of the conversion (revert of fix F28)", ["R-HOURNOISE"],
+    [(JOB, "                math.ceil(round(copy(self.request_duration.value).to(u.hour).magnitude, 9)) * u.dimensionless,",
+      "                math.ceil(copy(self.request_duration.value).to(u.hour).magnitude) * u.dimensionless,")], ["duration_in_full_hours"])
 mut("noop: hourly == raises on another length (revert of fix F23)", ["R-NOOP"],
     [(EO, """            if len(self.value) != len(other.value):
                 return False
